@@ -570,6 +570,19 @@ DlogStep(ev) ==
              IF fm = -1 THEN "count" ELSE IF fm > 0 THEN "line." \o ToString(fm) ELSE "ok")
       /\ Mark("DRIFT", Len(idx) > 0 /\ ev.code = 0 /\ ~ambiguous, ev)
 
+\* ev: [lines, args.M : seq of DF numbers, mlog : the logged lines that start with "ERROR - DF:", code]
+MlogStep(ev) ==
+  LET n    == Len(ev.lines)
+      lis  == [k \in 1..n |-> LineInfo(ev.lines[k])]
+      M    == ToSet(ev.args.M)
+      idx  == SelectSeq([k \in 1..n |-> k], LAMBDA k : lis[k].isf /\ lis[k].df \in M
+                          /\ (IF lis[k].df \in NineDF THEN lis[k].a # 0 ELSE lis[k].a # 0 /\ Field(lis[k].f, 9, 32) # 0))
+      ambiguous == \E k \in 1..n : lis[k].isf /\ lis[k].df \in M /\ lis[k].df \notin NineDF /\ ((lis[k].a = 0) # (Field(lis[k].f, 9, 32) = 0))
+      want == [j \in 1..Len(idx) |-> MlogRecord(lis[idx[j]].df, ev.lines[idx[j]])]
+  IN  /\ Chk("DRIFT", "mlog.records", (ev.code = 0 /\ ~ambiguous) => ev.mlog = want, ev,
+             IF Len(ev.mlog) # Len(want) THEN "count" ELSE "text")
+      /\ Mark("DRIFT", Len(idx) > 0 /\ ev.code = 0 /\ ~ambiguous, ev)
+
 (***************************** C17 country *********************************)
 \* ev.runs: run-length encoding of row.reg over all 2^24 addresses
 CountryStep(ev) ==
@@ -757,6 +770,7 @@ Step(ev) ==
   ELSE IF ev.e = "cli" THEN (IF CliStep(ev) THEN st ELSE st)
   ELSE IF ev.e = "dlog" THEN (IF DlogStep(ev) THEN st ELSE st)
   ELSE IF ev.e = "refresh" THEN (IF RefreshStep(ev) THEN st ELSE st)
+  ELSE IF ev.e = "mlog" THEN (IF MlogStep(ev) THEN st ELSE st)
   ELSE IF ev.e = "clistream" THEN (IF CliStreamStep(ev) THEN st ELSE st)
   ELSE IF ev.e = "icaosweep" THEN (IF IcaoSweepStep(ev) THEN st ELSE st)
   ELSE IF ev.e = "burst" THEN (IF BurstStep(ev) THEN st ELSE st)
